@@ -65,11 +65,20 @@ type scRef struct {
 	Ctx string   `json:"ctx"`
 	P   []string `json:"p"`
 }
+
+// scSpell is a spelling of a vector (Spellings of Scope.tla): access syntax of the entity segments of the
+// reference, upper-case reference, upper-case declarations.  The zero value is the plain spelling.
+type scSpell struct {
+	Syn  string `json:"syn"`
+	Ref  string `json:"ref"`
+	Decl string `json:"decl"`
+}
 type scVec struct {
 	ID   int     `json:"id"`
 	Sh   scShape `json:"sh"`
 	Site scSite  `json:"site"`
 	Ref  scRef   `json:"ref"`
+	Sp   scSpell `json:"sp"`
 }
 type scOut struct {
 	ID       int      `json:"id"`
@@ -84,14 +93,25 @@ type scOut struct {
 	RefCol   int      `json:"ref_col"`
 }
 
-func scJobName(i int) string { return fmt.Sprintf("j%d", i) }
-
-func scRefText(r scRef) string {
+func scRefText(r scRef, sp scSpell) string {
 	ctx := r.Ctx
 	if ctx == "ghinputs" {
 		ctx = "github.event.inputs"
 	}
-	return ctx + "." + strings.Join(r.P, ".")
+	var sb strings.Builder
+	sb.WriteString(ctx)
+	for i, seg := range r.P {
+		entity := i == 0 || (i == 2 && r.P[1] == "outputs") // names given by the workflow, not keywords
+		if entity && sp.Ref == "U" {
+			seg = strings.ToUpper(seg)
+		}
+		if entity && sp.Syn == "idx" {
+			sb.WriteString("['" + seg + "']")
+		} else {
+			sb.WriteString("." + seg)
+		}
+	}
+	return sb.String()
 }
 
 const scOpen = "${{ toJSON("
@@ -128,19 +148,26 @@ func scPerms(n int) [][]int {
 
 // scRender writes the shape restricted to the jobs in keep (nil: all) in the textual order `order`
 // (job indices; nil: ascending).  The reference is put at the site.
-func scRender(sh scShape, site scSite, ref scRef, keep map[int]bool, order []int) scRendered {
+func scRender(sh scShape, site scSite, ref scRef, keep map[int]bool, order []int, sp scSpell) scRendered {
+	dn := func(name string) string { // a declared name
+		if sp.Decl == "U" {
+			return strings.ToUpper(name)
+		}
+		return name
+	}
+	scJobName := func(i int) string { return dn(fmt.Sprintf("j%d", i)) }
 	var sb strings.Builder
 	line := 0
 	out := scRendered{jobStart: map[int]int{}, jobEnd: map[int]int{}}
 	w := func(s string) { sb.WriteString(s + "\n"); line++ }
-	probe := scOpen + scRefText(ref) + ") }}"
+	probe := scOpen + scRefText(ref, sp) + ") }}"
 	at := func(prefix string) { // writes prefix + probe and records the position
 		w(prefix + probe)
 		out.refLine = line
 		out.refCol = len(prefix) + len(scOpen) + 1
 	}
 	atAny := func(prefix string) { // for bool / number positions: the probe has type any
-		w(prefix + scOpenAny + scRefText(ref) + ")) }}")
+		w(prefix + scOpenAny + scRefText(ref, sp) + ")) }}")
 		out.refLine = line
 		out.refCol = len(prefix) + len(scOpenAny) + 1
 	}
@@ -153,7 +180,7 @@ func scRender(sh scShape, site scSite, ref scRef, keep map[int]bool, order []int
 		if len(sh.Call.Ins) > 0 {
 			w("    inputs:")
 			for _, n := range sh.Call.Ins {
-				w("      " + n + ":")
+				w("      " + dn(n) + ":")
 				w("        type: string")
 			}
 		}
@@ -163,7 +190,7 @@ func scRender(sh scShape, site scSite, ref scRef, keep map[int]bool, order []int
 			} else {
 				w("    secrets:")
 				for _, n := range sh.Call.Sec.Ns {
-					w("      " + n + ":")
+					w("      " + dn(n) + ":")
 					w("        required: false")
 				}
 			}
@@ -183,7 +210,7 @@ func scRender(sh scShape, site scSite, ref scRef, keep map[int]bool, order []int
 		if len(sh.Disp.Ins) > 0 {
 			w("    inputs:")
 			for _, n := range sh.Disp.Ins {
-				w("      " + n + ":")
+				w("      " + dn(n) + ":")
 				w("        type: string")
 			}
 		}
@@ -236,18 +263,18 @@ func scRender(sh scShape, site scSite, ref scRef, keep map[int]bool, order []int
 			for _, r := range job.Mx.Rows {
 				if r.Lit {
 					if firstLit == "" && is("mxrow", j, 0) {
-						w("        " + r.N + ":")
+						w("        " + dn(r.N) + ":")
 						w("          - 1")
 						w("          - 2")
 						at("          - ")
 					} else {
-						w("        " + r.N + ": [1, 2]")
+						w("        " + dn(r.N) + ": [1, 2]")
 					}
 					if firstLit == "" {
-						firstLit = r.N
+						firstLit = dn(r.N)
 					}
 				} else {
-					w("        " + r.N + ": ${{ fromJSON(vars.ROW) }}")
+					w("        " + dn(r.N) + ": ${{ fromJSON(vars.ROW) }}")
 				}
 			}
 			switch job.Mx.Inc.K {
@@ -263,18 +290,18 @@ func scRender(sh scShape, site scSite, ref scRef, keep map[int]bool, order []int
 					}
 					for i, key := range strings.Split(e, "") {
 						if i == 0 && !probed && is("mxinc", j, 0) {
-							at("          - " + key + ": ")
+							at("          - " + dn(key) + ": ")
 							probed = true
 						} else if i == 0 {
-							w("          - " + key + ": 1")
+							w("          - " + dn(key) + ": 1")
 						} else {
-							w("            " + key + ": 1")
+							w("            " + dn(key) + ": 1")
 						}
 					}
 				}
 			}
 			if firstLit == "" && len(job.Mx.Rows) > 0 {
-				firstLit = job.Mx.Rows[0].N
+				firstLit = dn(job.Mx.Rows[0].N)
 			}
 			switch job.Mx.Exc {
 			case "expr":
@@ -358,9 +385,9 @@ func scRender(sh scShape, site scSite, ref scRef, keep map[int]bool, order []int
 			w("    outputs:")
 			for i, o := range job.Outs {
 				if i == 0 && is("outputs", j, 0) {
-					at("      " + o + ": ")
+					at("      " + dn(o) + ": ")
 				} else {
-					w("      " + o + ": fixed")
+					w("      " + dn(o) + ": fixed")
 				}
 			}
 		}
@@ -385,7 +412,7 @@ func scRender(sh scShape, site scSite, ref scRef, keep map[int]bool, order []int
 			case "$":
 				item("id: ${{ format('dyn{0}', 1) }}", false)
 			default:
-				item("id: "+st, false)
+				item("id: "+dn(st), false)
 			}
 			if is("stepname", j, s) {
 				item("name: ", true)
@@ -457,7 +484,7 @@ func scRun(v scVec, reps int) scOut {
 		perms = perms[:reps]
 	}
 	for i, order := range perms {
-		r := scRender(v.Sh, v.Site, v.Ref, nil, order)
+		r := scRender(v.Sh, v.Site, v.Ref, nil, order, v.Sp)
 		if i == 0 {
 			out.Src, out.RefLine, out.RefCol = r.src, r.refLine, r.refCol
 		}
@@ -466,7 +493,7 @@ func scRun(v scVec, reps int) scOut {
 			return out
 		}
 		lines := strings.Split(r.src, "\n")
-		if got := lines[r.refLine-1][r.refCol-1:]; !strings.HasPrefix(got, scRefText(v.Ref)) {
+		if got := lines[r.refLine-1][r.refCol-1:]; !strings.HasPrefix(got, scRefText(v.Ref, v.Sp)) {
 			out.Other = append(out.Other, "renderer: reference is not at the recorded position: "+got)
 			return out
 		}
@@ -565,8 +592,8 @@ func scReduce(v scVec, reps int) []scReduceOut {
 			continue
 		}
 		for i, order := range perms {
-			full := scRender(v.Sh, v.Site, v.Ref, nil, order)
-			red := scRender(v.Sh, v.Site, v.Ref, keep, order)
+			full := scRender(v.Sh, v.Site, v.Ref, nil, order, v.Sp)
+			red := scRender(v.Sh, v.Site, v.Ref, keep, order, v.Sp)
 			if i == 0 {
 				o.SrcFull, o.SrcRed = full.src, red.src
 			}
@@ -617,7 +644,7 @@ func init() {
 			return err
 		}
 		for _, v := range in {
-			r := scRender(v.Sh, v.Site, v.Ref, nil, nil)
+			r := scRender(v.Sh, v.Site, v.Ref, nil, nil, v.Sp)
 			fmt.Printf("# id %d reference at %d:%d\n%s\n", v.ID, r.refLine, r.refCol, r.src)
 		}
 		return nil
